@@ -156,7 +156,8 @@ def streams(ctx):
                         why = f"range {got!r} does not cover the spec {spec!r}"
                     elif token == spec and got != spec:
                         why = f"range {got!r} is not exactly the spec {spec!r}"
-                    if why and eco == "gha" and L["quote"] in ('"', "'"):
+                    # F-C05-1 exactly: the range starts AT the '@' and runs to just after the closing quote
+                    if why and eco == "gha" and L["quote"] in ('"', "'") and got.startswith("@") and got.endswith(L["quote"]) and got[1:-1] == spec:
                         kid = "F-C05-1"
                     if not why:
                         # the diagnostic range in the client's units
